@@ -156,8 +156,23 @@ def exact_bbox(cps):
     return min(xs), min(ys), max(xs), max(ys)
 
 
+def _is_horizontal_inflection(cp):
+    """cubic whose y'(t) has a double root: the curve is horizontal there WITHOUT turning back (it crosses the level)"""
+    if len(cp) != 4: return None
+    w = [3 * (b[1] - a[1]) for a, b in zip(cp, cp[1:])]
+    A, B, C = w[0] - 2 * w[1] + w[2], 2 * (w[1] - w[0]), w[0]
+    if A == 0: return None
+    if abs(B * B - 4 * A * C) > 1e-12 * (B * B + abs(4 * A * C)): return None
+    t = -B / (2 * A)
+    return t if 0 < t < 1 else None
+
+
 def y_extremes(cps):
-    return [ref.bern(cp, t)[1] for cp in cps if len(cp) > 2 for t in crit_params(cp, 1)]
+    return [ref.bern(cp, t)[1] for cp in cps if len(cp) > 2 and _is_horizontal_inflection(cp) is None for t in crit_params(cp, 1)]
+
+
+def y_inflections(cps):
+    return [ref.bern(cp, _is_horizontal_inflection(cp))[1] for cp in cps if _is_horizontal_inflection(cp) is not None]
 
 
 def line_crossings(cps):
@@ -189,6 +204,7 @@ class Geo:
         self.ext = max(self.box[2] - self.box[0], self.box[3] - self.box[1])
         self.nodes = [cp[0] for cp in cps]
         self.yext = y_extremes(cps)
+        self.yinfl = y_inflections(cps)
         self.cross = line_crossings(cps)
         self.maxabs_y = max(abs(p[1]) for cp in cps for p in cp)
 
@@ -209,10 +225,15 @@ def _recheck(a, b, t, p):
     return math.sqrt((qx - p[0]) * (qx - p[0]) + (qy - p[1]) * (qy - p[1])) < EPS
 
 
-def classify(geo, q):
-    """known-finding class of a failing input, from the INPUT only (never from the observed output)"""
+def classify(geo, q, observed=()):
+    """known-finding class of a failing input, from the INPUT only; the one exception is the horizontal-inflection finding, which is
+    a finding about ONE clause (the winding number of a point outside the box; the parity there is right) and is recognised only when
+    that clause alone fails"""
     x, y = q
     ext = geo.ext
+    if any(abs(y - yi) <= 1e-9 * ext for yi in geo.yinfl) and not any(abs(y - ny) <= EPS * ext + 1e-9 * max(geo.maxabs_y, abs(y)) for _, ny in geo.nodes):
+        if observed and all(o.startswith('point outside the bounding box') for o in observed): return 'C11-horizontal-inflection-level'
+        return 'C11-misclassified'
     # D11: the ray is level with an on-curve node up to the library's own tolerances: the parameter window [2e-7, 1+2e-7] and
     # the slope threshold 2e-7 (both relative to the edge, hence <= 2e-7*extent) and isclose (1e-9 relative to |y|);
     # or level with a curve's y-extreme (tangential contact)
@@ -276,7 +297,7 @@ def gen_queries(rng, geo, k):
     def rx(): return rng.uniform(x0 - 0.3 * w - 1, x1 + 0.3 * w + 1)
     def ry(): return rng.uniform(y0 - 0.3 * h - 1, y1 + 0.3 * h + 1)
     for _ in range(k):
-        fam = rng.choice(['generic', 'generic', 'generic', 'node-level', 'near-node-level', 'extreme-level', 'outside-x', 'outside-y', 'hedge-level'])
+        fam = rng.choice(['generic', 'generic', 'generic', 'node-level', 'near-node-level', 'extreme-level', 'outside-x', 'outside-y', 'hedge-level', 'near-extreme-level'])
         if fam == 'generic': q = (rx(), ry())
         elif fam == 'node-level': q = (rx(), rng.choice(geo.nodes)[1])
         elif fam == 'near-node-level':
@@ -286,6 +307,10 @@ def gen_queries(rng, geo, k):
         elif fam == 'extreme-level':
             if not geo.yext: fam = 'generic'; q = (rx(), ry())
             else: q = (rx(), rng.choice(geo.yext))
+        elif fam == 'near-extreme-level':
+            # just above / below the height of a curve's y-extreme, OUTSIDE the tolerance band of the known finding: the ray (nearly) grazes the curve
+            if not geo.yext: fam = 'generic'; q = (rx(), ry())
+            else: q = (rx(), rng.choice(geo.yext) + rng.choice([1, -1]) * rng.choice([1.2e-9, 2e-9, 5e-9, 1e-8, 3e-8, 1e-7, 1e-6]) * geo.ext)
         elif fam == 'hedge-level':
             hs = [cp[0][1] for cp in geo.cps if len(cp) == 2 and cp[0][1] == cp[1][1]]
             if not hs: fam = 'generic'; q = (rx(), ry())
@@ -359,7 +384,7 @@ def search(ctx):
         if x0 - 10 <= q[0] <= x1 + 10 and y0 <= q[1] <= y1: seen.add((q, geo.nodes[0]))
         if len(samples) < 3: samples.append({'path_family': pfam, 'query_family': qfam, 'path': path_json(cps), 'point': list(q)})
         if f:
-            c = classify(geo, q)
+            c = classify(geo, q, f)
             byclass[c] = byclass.get(c, 0) + 1
             byfam[c + ' @ ' + pfam + '/' + qfam] = byfam.get(c + ' @ ' + pfam + '/' + qfam, 0) + 1
             if byclass[c] <= 40 or c == 'C11-misclassified':
@@ -388,6 +413,32 @@ def search(ctx):
         for _k in range(5):
             t = ts * rng.uniform(0.5, 1.6); pt = ref.bern(cps[0], t)
             one(pfam, cps, geo, path, 'overshoot-level', (rng.choice([x0 - 30.0, x1 + 30.0, rng.uniform(x0 + 50, x1 - 50)]), pt[1]))
+    # one arch (a cubic over its chord, spanning the whole extent), the query just above / below the top of the arch and beyond it
+    for _ in range(ctx.n(15, 300)):
+        W, H, x0, y0 = rng.uniform(50, 400), rng.uniform(50, 400), rng.uniform(-200, 200), rng.uniform(-200, 200)
+        if rng.random() < 0.5: W, H, x0, y0 = [float(round(v)) for v in (W, H, x0, y0)]
+        c = [(x0, y0), (x0 + W * rng.uniform(0, 0.4), y0 + H * rng.uniform(0.8, 1.6)), (x0 + W * rng.uniform(0.6, 1.0), y0 + H * rng.uniform(0.8, 1.6)), (x0 + W, y0)]
+        cps = [c, [c[3], c[0]]]
+        if rng.random() < 0.5: cps = [[(x, 2 * y0 - y) for x, y in cp] for cp in cps]
+        geo = Geo(cps); path = make_path(cps)
+        for ye in geo.yext:
+            for _k in range(4):
+                off = rng.choice([1, -1]) * rng.choice([1.2e-9, 2e-9, 5e-9, 1e-8, 3e-8, 1e-7, 1e-6]) * geo.ext
+                one('arch', cps, geo, path, 'near-extreme-level', (rng.choice([geo.box[0] - 20.0, geo.box[2] + 20.0]), ye + off))
+    # a cubic with a HORIZONTAL INFLECTION (y-controls a, b, a, b: y'(1/2) = y''(1/2) = 0; the curve crosses the level (a+b)/2 with a horizontal
+    # tangent), the query level with the inflection
+    for _ in range(ctx.n(15, 300)):
+        x0 = float(rng.randint(-200, 200)); y0 = float(rng.randint(-200, 200)); W = float(rng.randint(20, 300)); H = float(4 * rng.randint(5, 80))
+        xs = sorted((float(rng.randint(0, int(W))) if rng.random() < 0.5 else rng.uniform(0, W)) for _ in range(2))
+        c = [(x0, y0), (x0 + xs[0], y0 + H), (x0 + xs[1], y0), (x0 + W, y0 + H)]
+        top = y0 + H + float(rng.randint(20, 100))
+        cps = [c, [c[3], (x0 + W + 30.0, top)], [(x0 + W + 30.0, top), (x0 - 40.0, top)], [(x0 - 40.0, top), c[0]]]
+        if rng.random() < 0.5: cps = [[(x, 2 * y0 - y) for x, y in cp] for cp in cps]
+        if rng.random() < 0.5: cps = [list(reversed(cp)) for cp in reversed(cps)]
+        geo = Geo(cps); path = make_path(cps)
+        yq = geo.yinfl[0] if geo.yinfl else y0 + H / 2
+        for xq in (geo.box[0] - 20.0, geo.box[2] + 20.0, x0 - 20.0, x0 + W + 15.0):
+            one('horizontal-inflection', cps, geo, path, 'inflection-level', (xq, yq))
     # near-horizontal edges (|slope| between 1e-4 and 1e-3): the level of the query lies inside the edge's tiny y-span
     for _ in range(ctx.n(15, 300)):
         W = float(rng.randint(800, 3000)); rise = rng.choice([0.3, 0.5, 1.0, 2.0]); H = float(rng.randint(200, 800))
@@ -466,7 +517,7 @@ def replay(ctx, payload):
     i = payload['input']
     cps = [[tuple(p) for p in cp] for cp in i['path']]
     geo, f = run_input(cps, tuple(i['point']), i.get('via'))
-    return {'fails': bool(f), 'observed': f, 'class': classify(geo, tuple(i['point'])) if f else None}
+    return {'fails': bool(f), 'observed': f, 'class': classify(geo, tuple(i['point']), f) if f else None}
 
 
 def check_known(ctx, finding):
